@@ -166,4 +166,36 @@ def run(ctx, rep):
             rep.ob("merge-emit", "truth-table", ok, f"{len(paths)} paths; {why}", c.file, c.line)
         except _d.NotLoopFree as e:
             rep.ob("merge-emit", "truth-table", False, str(e), c.file, c.line)
+    _parse_records_all(ctx, rep)
     rep.assume("which inputs carry which notes is input data; merged values are not decided")
+
+
+def _parse_records_all(ctx, rep):
+    """The merge (AND / OR / OR_AND classes) needs to know, per input, which property *types are present* - a property whose value is 0 still counts as
+    present (OR_AND: x86 ISA_1_USED / FEATURE_2_USED with no bits set keeps the property alive). The per-object parser must therefore record every
+    4-byte property it reads, whatever its value."""
+    import decide
+    from mir import callee_key, place_chain
+    F, P = ctx.facts(), ctx.program()
+    rep.rule("parse-records-all", "process_gnu_note_section records every property entry with a 4-byte payload: the push into gnu_property_notes is guarded by the payload "
+             "length test only, never by the property's value or type")
+    bs = [b for b in F.all_bodies if b.key.endswith("::process_gnu_note_section") and b.d["kind"] != "Closure" and "libwild::elf::File" in b.key]
+    if not bs:
+        rep.lost("parse-records-all", "elf::File::process_gnu_note_section")
+        return
+    b = bs[0]
+    flow, cfg = P.flow(b), P.cfg(b)
+    full = decide.all_edge_atoms_full(P, F, b)
+    ef = cfg.edge_facts()
+    pushes = [(bi, t) for bi, t in flow.calls() if (callee_key(t["f"]) or "").endswith("Vec::push") and "gnu_property_notes" in place_chain(flow, t["args"][0])[0]]
+    rep.floor("parse-records-all", "pushes into gnu_property_notes", len(pushes), 1)
+    for n, (bi, t) in enumerate(pushes):
+        guards = [full[e] for e in ef.get(bi, ()) if e in full]
+        bins = [(a, v) for a, v in guards if str(a).startswith("bin:")]
+        extra = [(a, v) for a, v in bins if not ("len(" in str(a) and str(a).rstrip(")").endswith(", 4"))]
+        calls = [(a, v) for a, v in guards if str(a).startswith("call:") and not any(x in str(a) for x in ("is_empty", "is_some", "is_none", "is_ok", "is_err"))]
+        ok = not extra and not calls and len(bins) >= 1
+        rep.ob("parse-records-all", f"push#{n}", ok,
+               f"guarded only by the payload-length test {[str(a) for a, _v in bins]}" if ok else
+               f"the push is also guarded by {[str(a) for a, _v in extra + calls]}: an input whose property has that value/type looks like an input *without* the property, "
+               "and an AND / OR_AND-class property is then dropped from the output although every input carries it", b.file, t["l"])
